@@ -63,7 +63,7 @@ NS = "Xmp.C09."
 REQUIRED = [NS + n for n in (
     "C09_crc_table_eq_bitwise", "C09_crc_linear", "C09_crc_detects_burst", "C09_bzcrc_detects_burst",
     "C09_crc32_detects", "C09_crc16_detects", "C09_bzcrc_detects", "C09_crc32_detects_bytes", "C09_crc16_detects_bytes",
-    "C09_gate_gzip", "C09_gate_zip", "C09_gate_bzip2", "C09_gate_xz", "C09_gate_arc", "C09_gate_arcfs", "C09_gate_lzx",
+    "C09_gate_gzip", "C09_gate_zip", "C09_gate_bzip2", "C09_bzip2_stream_crc_unchecked", "C09_gate_xz", "C09_gate_arc", "C09_gate_arcfs", "C09_gate_lzx",
     "C09_reject_gzip", "C09_reject_gzip_field", "C09_reject_zip", "C09_reject_zip_field", "C09_reject_bzip2",
     "C09_reject_xz", "C09_reject_xz_field", "C09_reject_arc", "C09_reject_arcfs", "C09_reject_lzx", "C09_reject")]
 
@@ -377,7 +377,8 @@ def field_gate_ties(ck, orc, archives, quick):
             faults = [("none",)] + [("flip", o, b) for o in offs for b in (range(8) if not quick else [ck.rng.randrange(8), ck.rng.randrange(8)])]
             dstart = a["zip"]["data"]
             for _ in range(10 if quick else 60):
-                faults.append(("flip", dstart + ck.rng.randrange(max(1, len(a["payload"]) // 2)), ck.rng.randrange(8)))
+                csz = struct.unpack("<I", a["data"][c + 20:c + 24])[0]
+                faults.append(("flip", dstart + ck.rng.randrange(max(1, csz)), ck.rng.randrange(8)))
             res, crashes = orc.run_faults(a, faults)
             lines, idx = [], []
             for i, x in enumerate(faults):
@@ -402,7 +403,10 @@ def field_gate_ties(ck, orc, archives, quick):
                 real_ok = res[i][0] == 0
                 model_ok = m.startswith("some")
                 n += 1
-                if real_ok != model_ok:
+                # the model covers mz_zip_reader_extract_to_mem_no_alloc1 only; mz_zip_reader_init applies further
+                # sanity checks to the central directory, so the real reader may refuse more: the direction the
+                # gate theorem needs is  real accepts => model accepts  (and the payload then is the model's)
+                if real_ok and not model_ok:
                     ck.unproved("correspondence Gates.zipExtract vs miniz_zip.c",
                                 "fault %s: real load rc=%s, model=%s; archive=%s" % (faults[i], res[i][0], m[:60], a["data"].hex()[:3000]))
                     return
@@ -575,7 +579,9 @@ def run(ck):
         encoder_field_ties(ck, archives)
         gate_correspondence(ck, orc, archives + seeds, quick)
         field_gate_ties(ck, orc, archives, quick)
-        st = oracle(ck, orc, archives + seeds, quick)
+        skipped = [a["variant"] for a in seeds if not a.get("oracle", True)]
+        ck.note("seed_archives_outside_oracle_scope", skipped)
+        st = oracle(ck, orc, archives + [a for a in seeds if a.get("oracle", True)], quick)
     finally:
         shutil.rmtree(work, ignore_errors=True)
     ck.sample({"formats": sorted(st), "example_fault_counts": {k: v["faults"] for k, v in st.items()}})
